@@ -296,7 +296,7 @@ def coq_check_props(pid, scratch, extra_files=None, thorough=False):
     res["ok"] = True
     if thorough and os.environ.get("VERIF_COQCHK", "1") == "1":
         t0 = time.time()
-        r = subprocess.run(["timeout", "1500", "coqchk", "-silent", "-o"] + COQ_Q[:10] + ["QProps." + pid],
+        r = subprocess.run(["timeout", "1500", "coqchk", "-silent", "-o"] + COQ_Q[:9] + ["QProps." + pid],
                            capture_output=True, text=True, cwd=COQ)
         res["coqchk_s"] = round(time.time() - t0, 1)
         res["coqchk_ok"] = (r.returncode == 0)
